@@ -304,6 +304,30 @@ val put_cx : car list -> q list
 
 val getq : q list -> nat -> q
 
+val optl : q list option -> q list
+
+val cq_of_z : z -> car
+
+val vec : car list -> nat -> car
+
+val chunks : nat -> nat -> 'a1 list -> 'a1 list list
+
+val zs : q list -> z list
+
+val cr : q -> car
+
+val crs : q list -> car list
+
+val ciQ : car
+
+val qcs : q list -> car list
+
+val unqcs : car list -> q list
+
+val idx_eqb : z list -> z list -> bool
+
+val lookup : (z list * car) list -> z list -> car
+
 val scan : ('a1 -> 'a2 -> 'a1 * 'a3) -> 'a1 -> 'a2 list -> 'a1 * 'a3 list
 
 val rollout : ('a1 -> 'a1) -> nat -> bool -> 'a1 -> 'a1 list
@@ -694,51 +718,27 @@ val affx : z -> z -> z -> z
 
 val pairf : (z * z) -> z * z
 
-val optl : q list option -> q list
-
 val run_c14 : z -> q list -> q list
 
 val sel_integrand : z -> z -> car -> car -> car -> car
 
 val triples : car list -> ((car * car) * car) list
 
-val cq_of_z : z -> car
-
 val contour_coef : z -> z -> car -> ((car * car) * car) list -> car
-
-val vec : car list -> nat -> car
 
 val test_nl : nat -> (nat -> car) -> nat -> car
 
-val chunks : nat -> nat -> 'a1 list -> 'a1 list list
-
 val run_c02 : z -> q list -> q list
 
-val zs : q list -> z list
-
 val run_c20 : z -> q list -> q list
-
-val cr : q -> car
-
-val crs : q list -> car list
-
-val ciQ : car
 
 val run_sym : q list -> q list
 
 val run_wave : q list -> q list
 
-val qcs : q list -> car list
-
-val unqcs : car list -> q list
-
 val run_conv : q list -> q list
 
 val run_c04 : z -> q list -> q list
-
-val idx_eqb : z list -> z list -> bool
-
-val lookup : (z list * car) list -> z list -> car
 
 val run_term : q list -> q list
 
